@@ -260,6 +260,18 @@ class Interp:
         self.nforks = 0
         self.globals_loaded = set()
 
+    def opaque_bits(self, n, depmask, tag):
+        """the result of a non-linear operation as fresh named symbols (an unknown function of its operands): sound for universally
+        quantified obligations; the dependency set is kept for purity rules"""
+        if not hasattr(self, '_nopq'): self._nopq = 0; self.opaque_deps = {}
+        self._nopq += 1
+        out = []
+        for j in range(n):
+            b = self.V.bit('opq%d<%s>.%d' % (self._nopq, tag, j))
+            self.opaque_deps[b[0]] = depmask
+            out.append(b)
+        return out
+
     # ---------- memory
     def global_obj(self, st, name):
         key = 'g:' + name
@@ -475,13 +487,16 @@ class Interp:
                 if op == 'sdiv' and A[-1] == 0: return BV(A[k:] + [0] * k)
                 if op == 'srem' and A[-1] == 0: return BV(A[:k] + [0] * (w - k))
             if cb is not None and cb != 0 and op == 'udiv':
-                # known-zero high bits are preserved by an unsigned division: result <= a
+                # known-zero high bits are preserved by an unsigned division: result <= a >> floor(log2(divisor))
                 hz = 0
                 for x in reversed(A):
                     if x == 0: hz += 1
                     else: break
-                hz2 = hz + cb.bit_length() - 1
-                return BV([T(alld)] * (w - min(w, hz2)) + [0] * min(w, hz2))
+                hz2 = min(w, hz + cb.bit_length() - 1)
+                return BV(self.opaque_bits(w - hz2, alld, 'udiv@%s' % inst.loc) + [0] * hz2)
+            if cb is not None and cb != 0 and op == 'urem':
+                k = cb.bit_length()
+                return BV(self.opaque_bits(min(w, k), alld, 'urem@%s' % inst.loc) + [0] * (w - min(w, k)))
             return BV([T(alld)] * w)
         raise Unmodelled('binary opcode %s at %s' % (op, inst.loc))
 
